@@ -463,13 +463,44 @@ Definition zero_ok (q : query) (k : kind) : bool :=
 
 (* a selected kind contributes: with entities, the samples of those passing the filters (grouped as the titles
    group them); without entities and without filter, its names with value 0 and no labels *)
-Definition kind_samples (st : state) (q : query) (k : kind) : list sample :=
+Definition avail_samples (q : query) (k : kind) (a : avail) : list sample :=
   if sec_on q k then
-    match entities st k with
+    match a with
     | NotThere => []
     | Ents [] => if zero_ok q k then map zero_sample (zero_names k) else []
     | Ents l => flat_map (fun g : group => flat_map (fun e => flat_map (msamples k e) (snd g)) (filter (passes q k) l))
                          (k_groups (spec k))
     end
   else [].
+Definition kind_samples (st : state) (q : query) (k : kind) : list sample := avail_samples q k (entities st k).
 Definition expected_samples (st : state) (q : query) : list sample := flat_map (kind_samples st q) all_kinds.
+
+(* ---------------- states given by finite data; float tokens ---------------- *)
+
+Definition kind_eqb (a b : kind) : bool :=
+  match a, b with
+  | KPaths, KPaths | KForward, KForward | KHlsSessions, KHlsSessions | KHlsMuxers, KHlsMuxers | KRtspConns, KRtspConns
+  | KRtspSessions, KRtspSessions | KRtspsConns, KRtspsConns | KRtspsSessions, KRtspsSessions | KRtmpConns, KRtmpConns
+  | KRtmpsConns, KRtmpsConns | KSrtConns, KSrtConns | KWebrtcSessions, KWebrtcSessions | KMoqSessions, KMoqSessions => true
+  | _, _ => false
+  end.
+
+Fixpoint srv_lookup (k : kind) (l : list (kind * listing)) : listing :=
+  match l with
+  | [] => Absent
+  | (k', v) :: r => if kind_eqb k' k then v else srv_lookup k r
+  end.
+
+(* paths list (None = error), forward destinations per path name (missing / None = error), list per server kind
+   (missing = no server) *)
+Definition mk_state (paths : option (list entity)) (fwd : list (bytes * option (list entity))) (srv : list (kind * listing)) : state :=
+  {| st_paths := paths; st_fwd := fun n => lookup None n fwd; st_srv := fun k => srv_lookup k srv |}.
+
+(* a float token must be a token: non-empty, no newline (FormatFloat output always is) *)
+Definition no_nlb (l : bytes) : bool := forallb (fun c => negb (c =? 10)) l.
+Definition tok_okb (t : bytes) : bool := negb (isnil t) && no_nlb t.
+Definition wf_entityb (k : kind) (e : entity) : bool :=
+  forallb (fun g : group => forallb (fun m => match m_src m with VFlt f => tok_okb (gf e f) | _ => true end) (snd g))
+          (k_groups (spec k)).
+Definition wf_stateb (st : state) : bool :=
+  forallb (fun k => match entities st k with NotThere => true | Ents l => forallb (wf_entityb k) l end) all_kinds.
